@@ -27,7 +27,9 @@ CLAIM = {
             "(`PrivClient::get`) are decided only through remove_and_check_hmac (R17.1); (R17.5) at start-up the fetched "
             "records reach the local store's own version/content comparison complete: the cloud-staged store's and "
             "the persister's put_batch_unlogged hand the whole batch, element for element, to the local put_batch "
-            "(same rule as C16 R16.5). Cryptographic strength is not decided.",
+            "(same rule as C16 R16.5); (R17.6) CloudKVVStore::is_in_sync answers true only through the whole-value "
+            "equality of the fetched last-writer record (version and content) with the locally stored one. "
+            "Cryptographic strength is not decided.",
     "note": "bitcoin_hashes HmacEngine semantics by name; values are not traced across await points",
     "technique": "static analysis: ordered-effect extraction (MAC input sequence) + sibling agreement + return-value provenance",
 }
@@ -41,6 +43,7 @@ def run(ctx):
     r173(ctx)
     r174(ctx)
     r175(ctx)
+    r176(ctx)
 
 
 def rpo(fv):
@@ -305,3 +308,30 @@ def r174(ctx):
 def r175(ctx):
     from rules import C16
     C16.r165(ctx, rid="R17.5", fns=C16.UNLOGGED[1:])
+
+
+def r176(ctx):
+    ctx.rule("R17.6", "the fetched last-writer record is accepted as 'in sync' only if version and content both equal the local "
+                      "record: CloudKVVStore::is_in_sync returns the whole-value equality with local.get(LAST_WRITER_KEY)")
+    p = ctx.prog
+    b = p.fn("vls_persist::kvv::cloud::CloudKVVStore::<L>::is_in_sync")
+    ctx.touch(b)
+    fv = fnview(ctx, b, policy=False)
+    n = 0
+    for r in fv.return_sites():
+        if r["kind"] == "false":
+            continue
+        n += 1
+        e = fv._call_expr(r["call"], 0) if "call" in r else (fv.expr(r["stmt"].rv.ops[0]) if r["stmt"].rv.ops else ("opaque", "?"))
+        e = strip_ref(e)
+        ok = e[0] == "cmp" and e[1] == "=="
+        if ok:
+            sides = [render(peel(e[2])), render(peel(e[3]))]
+            whole_param = any(x == "version_value" for x in sides)
+            local_get = any("KVVStore::get(self.local" in x and "LAST_WRITER_KEY" in x and "get_version" not in x for x in sides)
+            ok = whole_param and local_get and "call" in r and "cmp::PartialEq" in (r["call"].callee.name if r["call"].callee else "")
+        ctx.ob("R17.6", ok, f"{b.name}/whole-record-equality",
+               f"is_in_sync answers `{render(e)[:160]}`: not the equality of the whole fetched record (version and content) with "
+               "local.get(LAST_WRITER_KEY); a last-writer record with the same version and other content (another signer's, a "
+               "flipped or truncated one) is accepted as in sync", where=f"{b.file}:{r['line']}", sample="version_value == local.get(LAST_WRITER_KEY)")
+    ctx.floor("R17.6", "non-false returns of is_in_sync", n, 1)
